@@ -45,3 +45,20 @@ func (gt *GoTo) Hierarchy() []slip.Symbol {
 func (gt *GoTo) Eval(s *slip.Scope, depth int) slip.Object {
 	return gt
 }
+
+// Find returns the index of the tag in the statements from first on. If the
+// tag is not one of the statements and an enclosing tagbody exists in scope s
+// then -1 is returned so the caller can hand the GoTo on to that tagbody,
+// otherwise a control-error is raised.
+func (gt *GoTo) Find(s *slip.Scope, statements slip.List, first, depth int) int {
+	for i := first; i < len(statements); i++ {
+		if statements[i] == gt.Tag {
+			return i
+		}
+	}
+	if !s.TagBody {
+		slip.ControlPanic(s, depth, "attempt to go to nonexistent tag: %s", gt.Tag)
+	}
+	return -1
+}
+
